@@ -170,7 +170,7 @@ func runDebug(cmd, repo string, args []string) {
 			}
 		}
 		st := &ExploreStats{}
-		dis, und := Explore(m, sel, multi, st, 16, os.Getenv("OJGCHECK_NOREF") != "")
+		dis, und := Explore(m, sel, multi, st, 16, os.Getenv("OJGCHECK_NOREF") != "", os.Getenv("OJGCHECK_NOEVENTS") != "")
 		fmt.Printf("states=%d transitions=%d armruns=%d rounds=%d modes=%d in %.2fs\n", st.States, st.Transitions, st.ArmRuns, st.Rounds, len(st.Modes), time.Since(t0).Seconds())
 		var keys []string
 		for k := range dis {
